@@ -37,6 +37,9 @@ var c05Extra = []c05Entry{
 	{`$greet(a)`, true}, {`a = "xAz" ? $big := n : $big`, true}, {`$q := s`, false}, {`[$exists($q), $q := a]`, false},
 	{`$fromMillis(0, "[H01]:[m01]", "+0845")`, false}, {`$fromMillis(0, "[H01]:[m01]", "-0845")`, false}, {`$formatNumber(n[0], "#,##0.00")`, false},
 	{`$toMillis($fromMillis(86400000))`, false}, {`$reverse(n)`, false}, {`$sort(n)`, false}, {`$distinct(n)`, false}, {`$append(n, n)`, false},
+	// a variable bound inside one member value of a constructor and read by another: the outcome may not depend on
+	// the order in which Go visits a map
+	{`{"a": $x := 1, "b": $x}`, false}, {`($x := 0; {"a": $x := 1, "b": $x})`, false}, {`o{v: $y := k, "z": $y}`, false},
 	// built-ins with optional arguments, called with and without them on data both forms accept
 	{`$toMillis("2017-10-30T16:25:32+01:00")`, false}, {`$toMillis("30/10/2017", "[D01]/[M01]/[Y]")`, false}, {`$toMillis("2018-03-04")`, false},
 	{`$toMillis("2018-03-04", "[Y]-[D01]-[M01]")`, false}, {`$fromMillis(1509377132000)`, false}, {`$fromMillis(1509377132000, "[Y]/[M01]")`, false},
